@@ -5,7 +5,7 @@ P=$1; K=$2; shift 2
 CHECKS=${@:-$P}
 SRC=/tmp/wt_out/$P/$K
 DST=/verif/seeded/${P}_$K
-[ -f $SRC/patch.diff ] || SRC=$DST
+[ -f $DST/patch.diff ] && SRC=$DST
 WT=/tmp/sv_${P}_$K
 set -u
 git -C /repo worktree remove --force $WT 2>/dev/null
